@@ -41,6 +41,37 @@ def _same(a, b):
         return False
 
 
+def probe_registration(violation):
+    """register_type(name, cls): schema.<name> is an instance of the class registered LAST under that name (a custom
+    type may be redefined, e.g. on module reload), and forwards like the built-in it wraps from the facade too."""
+    from d42 import fake, schema, validate
+    from d42.declaration import register_type
+    n = 0
+    name = "verif_reg_probe"
+    variants = [("int", custom.FwdSchema, "schema.int.min(1)", 0), ("str", custom.FwdMixinSchema, "schema.str.len(1, 8)", "ab"),
+                ("list", custom.FwdKwargsSchema, "schema.list(schema.int).len(2)", [1, 2])]
+    for label, cls, inner_src, good in variants * 2:
+        returned = register_type(name, cls)
+        got = getattr(schema, name)
+        n += 1
+        if type(got) is not cls or type(returned) is not cls:
+            violation(f"register_type did not (re)bind schema.{name} to the class registered last",
+                      {"kind": "history", "registered": cls.__name__, "observed": [type(returned).__name__, type(got).__name__],
+                       "expected": cls.__name__})
+            return n
+        inner = gen.build(inner_src)
+        w = got(inner)
+        for v in (good, None, "x" * 20, -5):
+            a = [type(e).__name__ for e in validate(w, v).get_errors()]
+            b = [type(e).__name__ for e in validate(inner, v).get_errors()]
+            if a != b or repr(w) != repr(inner):
+                violation("a custom type taken from the facade after re-registration does not behave like the built-in it forwards to",
+                          {"kind": "history", "registered": cls.__name__, "inner": inner_src, "value": gen.vsrc(v),
+                           "observed": [a, repr(w)], "expected": [b, repr(inner)]})
+                return n
+    return n
+
+
 def _validators():
     from d42.substitution import SubstitutorValidator
     from d42.validation import Validator
@@ -150,6 +181,7 @@ def run(ctx):
     def violation(what, rp, failing_input=True):
         ctx.violation(what, rp, failing_input=failing_input)
 
+    dist["registration_probes"] = probe_registration(violation)
     for _ in range(n_trees):
         ssrc, s = _tree(r, depth)
         for _w in range(2 if r.random() < 0.5 else 1):
